@@ -526,6 +526,22 @@ def check_seeding(run):
     m = base_module("nv_anc", anc=True)
     md = model.register_model(m)
     try:
+        # the ancillary keys a model reports: the common ones plus its own,
+        # the same at every call, and nobody else's
+        run.case({"anc-keys": "nv_anc"}, kind="seeding")
+        k1 = list(md.get_anc_parm_keys())
+        k2 = list(md.get_anc_parm_keys())
+        others = {kk: list(model.models_available[kk].get_anc_parm_keys())
+                  for kk in ("hertz_para", "hertz_cone")
+                  if kk in model.models_available}
+        k3 = list(md.get_anc_parm_keys())
+        if k1 != ["max_indent"] + list(m.parameter_anc_keys) or k2 != k1 \
+                or k3 != k1 or any(v != ["max_indent"]
+                                   for v in others.values()):
+            run.failing(SITE_A, "anc-keys", f"get_anc_parm_keys: first call "
+                        f"{k1}, second {k2}, third {k3}; shipped models "
+                        f"report {others}", payload={"kind": "rerun"},
+                        theorem="C18_register_available")
         cols = m1.small_curve(5)
         idnt = curves.make_indentation(cols)
         idnt.apply_preprocessing(["compute_tip_position"])
